@@ -218,8 +218,10 @@ def print_assumptions(prop, workdir):
             cur = m.group(1); res[cur] = []; continue
         if cur is None:
             continue
+        if line.strip() in ("Axioms:", "Closed under the global context"):
+            continue
         m = re.match(r"^([A-Za-z_][\w'.]*)\s*:", line)
-        if m and not line.startswith(" "):
+        if m and not line.startswith(" ") and m.group(1) != "Axioms":
             res[cur].append(m.group(1))
     return res, out
 
